@@ -108,9 +108,9 @@ func (r *Router) Match(method, path string) (route *Route, ps Params, alm []stri
 func (r *Router) QuickMatch(method, path string) (route *Route, ps Params, alm []string) {
 	if r.interceptAll != "" {
 		path = r.interceptAll
-	} else {
-		path = r.formatPath(path)
 	}
+	// NOTICE: the intercept path also need format, the registered route path is formatted.
+	path = r.formatPath(path)
 
 	// do match route
 	if route, ps = r.match(method, path); route != nil {
